@@ -1,7 +1,7 @@
 (* PureSupport.v -- the vocabulary the translated functions of gen/Pure.v are written in (no proofs):
    an action as the code builds it (tracepoint id, condition, the CONFIG DICT as an association list, kind),
    and how the model's description of an action (TriggerTable.adesc) is read off that dict. *)
-From Deep Require Import Base Config Limiter Cond Match TriggerTable.
+From Deep Require Import Base Config Limiter Cond Match TriggerTable Attrs.
 
 Inductive dval := DStr (s : str) | DOpt (o : option str) | DList (l : list str) | DMetrics (n : nat).
 Record gaction := mk_action { ga_tp : str; ga_cond : option str; ga_cfg : list (str * dval); ga_kind : akind }.
@@ -43,3 +43,16 @@ Definition py_slice_from (s : str) (n : Z) : str :=
 (* an evaluation outcome (Cond.eres) as the code sees it: evaluate_expression hands back what was raised *)
 Definition is_err (r : eres) : bool := match r with EErr _ _ => true | EVal _ => false end.
 Definition eres_text (r : eres) : str := match r with EVal t => t | EErr _ m => m end.
+
+(* OrderedDict: d[k] = v keeps the position of an existing key, a new key goes to the end *)
+Fixpoint od_replace (it : list (str * cval)) (k : str) (v : cval) : list (str * cval) :=
+  match it with
+  | [] => []
+  | (k', v') :: r => if str_eqb k' k then (k', v) :: r else (k', v') :: od_replace r k v
+  end.
+Definition od_set (it : list (str * cval)) (k : str) (v : cval) : list (str * cval) :=
+  if inb k it then od_replace it k v else it ++ [(k, v)].
+(* _clean_attribute(key, value, max_len) for a key that is a str (a key of another type is rejected there before any
+   dictionary operation: Attrs.key_ok, tied by correspondence) *)
+Definition clean_attribute (k : str) (v : val) (limit : option Z) : option cval :=
+  clean (option_map Z.to_nat limit) (KStr k) v.
